@@ -46,4 +46,137 @@ mutual
     | c :: cs => hasUnsupported c || anyUnsupported cs
 end
 
+/-! ## Call sites of callees with a fixed parameter list
+
+`build_CPPCodeValue` (functions declared with `add_cpp_function`, the built-ins `DeltaR`,
+`getAttributeFloat`, `getAttributeVectorFloat`), `get_collection` (event collection accessors:
+one argument, method style), `call_Range` (two), `call_First`/`Count` (none beside the source),
+`call_ResultTTree` (four): the callee declares how many arguments it takes and whether it is a
+function or a method; the call site has to match both. -/
+
+structure FnSpec where
+  name : String
+  arity : Nat
+  isMethod : Bool
+deriving Repr, DecidableEq
+
+structure CallSite where
+  nargs : Nat
+  asMethod : Bool
+deriving Repr, DecidableEq
+
+inductive CallErr where
+  | arity (declared given : Nat)
+  | functionAsMethod
+  | methodAsFunction
+deriving Repr, DecidableEq
+
+/-- the three checks of `build_CPPCodeValue`, in its order -/
+def buildCall (s : FnSpec) (c : CallSite) : Except CallErr Unit :=
+  if c.nargs ≠ s.arity then .error (.arity s.arity c.nargs)
+  else if c.asMethod && !s.isMethod then .error .functionAsMethod
+  else if !c.asMethod && s.isMethod then .error .methodAsFunction
+  else .ok ()
+
+/-! ## Metadata dictionaries (`process_metadata`)
+
+One dictionary is seen as: its `metadata_type` (absent: `none`), the other keys it carries, and
+the truth value of `contains_collection` (only looked at by the collection declarations). -/
+
+structure Md where
+  ty : Option String
+  keys : List String
+  cc : Bool
+deriving Repr, DecidableEq
+
+/-- what `process_metadata` reads for one `metadata_type`: groups of keys of which one must be
+present (`md["k"]`; the method declaration takes `return_type` or `return_type_element`), the
+whitelist where the code has one (`none`: further keys are ignored), and whether the
+`element_type`/`contains_collection` consistency rule applies -/
+structure MdKind where
+  ty : String
+  required : List (List String)
+  closed : Option (List String)
+  elemRule : Bool
+deriving Repr
+
+def collKeys : List String := ["name", "include_files", "container_type", "element_type", "contains_collection"]
+
+def mdKinds : List MdKind := [
+  ⟨"add_method_type_info", [["type_string"], ["method_name"], ["return_type", "return_type_element"]], none, false⟩,
+  ⟨"inject_code", [["name"]],
+    some ["name", "body_includes", "header_includes", "private_members", "instance_initialization", "ctor_lines",
+          "initialize_lines", "link_libraries"], false⟩,
+  ⟨"add_job_script", [["name"], ["script"]], none, false⟩,
+  ⟨"add_cpp_function", [["name"], ["include_files"], ["arguments"], ["code"], ["return_type"]], none, false⟩,
+  ⟨"add_atlas_event_collection_info", [["name"], ["include_files"], ["container_type"], ["contains_collection"]],
+    some (collKeys ++ ["link_libraries"]), true⟩,
+  ⟨"add_cms_aod_event_collection_info", [["name"], ["include_files"], ["container_type"], ["contains_collection"], ["element_type"]],
+    some (collKeys ++ ["element_pointer"]), true⟩,
+  ⟨"add_cms_miniaod_event_collection_info", [["name"], ["include_files"], ["container_type"], ["contains_collection"], ["element_type"]],
+    some (collKeys ++ ["element_pointer"]), true⟩,
+  ⟨"define_enum", [["namespace"], ["name"], ["values"]], none, false⟩
+]
+
+inductive MdErr where
+  | noType
+  | unknownType (t : String)
+  | unexpectedKey (k : String)
+  | missingKey (oneOf : List String)
+  | elementMismatch
+deriving Repr, DecidableEq
+
+def firstUnexpected (closed : Option (List String)) (keys : List String) : Option String :=
+  match closed with
+  | none => none
+  | some ws => keys.find? (fun x => !ws.contains x)
+
+/-- the checks on the keys of a dictionary of a known kind, in the order of the code: first key
+outside the whitelist, first needed key missing, element-type contradiction -/
+def mdTail (unexpected : Option String) (missing : Option (List String)) (mismatch : Bool) : Except MdErr Unit :=
+  match unexpected with
+  | some x => .error (.unexpectedKey x)
+  | none =>
+    match missing with
+    | some g => .error (.missingKey g)
+    | none => if mismatch then .error .elementMismatch else .ok ()
+
+/-- one dictionary through `process_metadata`: `ok` or the first complaint -/
+def mdCheck (m : Md) : Except MdErr Unit :=
+  match m.ty with
+  | none => .error .noType
+  | some t =>
+    match mdKinds.find? (fun k => k.ty == t) with
+    | none => .error (.unknownType t)
+    | some k =>
+      if t == "inject_code" && m.keys.isEmpty then .ok ()   -- `if len(info) > 0`: an empty block is skipped
+      else mdTail (firstUnexpected k.closed m.keys)
+        (k.required.find? (fun g => !g.any m.keys.contains))
+        (k.elemRule && (m.cc != m.keys.contains "element_type"))
+
+/-- the list of dictionaries, in order: the first complaint ends the translation -/
+def mdAll : List Md → Except MdErr Unit
+  | [] => .ok ()
+  | m :: ms => match mdCheck m with
+    | .ok () => mdAll ms
+    | .error e => .error e
+
+/-! ## `inject_code` blocks under one name (`ok_to_add_code_block`) -/
+
+/-- an `inject_code` block after the dataclass has filled in its defaults: the name and every
+field in the fixed order of the dataclass -/
+structure IB where
+  name : String
+  fields : List (List String)
+deriving Repr, DecidableEq
+
+/-- `process_metadata` keeps the blocks it has accepted; a new block is compared with the kept
+block of the same name: identical → skipped, different → refused -/
+def injectAdd : List IB → List IB → Except String (List IB)
+  | [], acc => .ok acc
+  | b :: bs, acc =>
+    match acc.find? (fun a => a.name == b.name) with
+    | none => injectAdd bs (acc ++ [b])
+    | some a => if a = b then injectAdd bs acc else .error b.name
+
 end FaxVerif.C09
